@@ -109,7 +109,7 @@ func expiryObserved(h *HHistory, obs []HObs) bool {
 }
 
 func init() {
-	base := Profile{WAuthorize: 18, WRedeem: 24, WRefresh: 22, WRevoke: 8, WIntrospect: 4, WAdvance: 8, WSetClient: 2,
+	base := Profile{WAuthorize: 18, WRedeem: 24, WRefresh: 22, WRevoke: 8, WIntrospect: 4, WAdvance: 8, WSetClient: 2, WPassword: 5, WClientCreds: 1, WIntrospectEP: 2,
 		PKCE: 10, Bad: 12, ShortLives: 25, MinOps: 8, MaxOps: 28, Smuggle: 10}
 	mk := func(id string, f func(p *Profile)) Profile { p := base; p.Name = id; f(&p); return p }
 	common := "seeded histories over authorize/redeem/refresh/revoke/introspect/advance/setclient with 2-4 clients, every access/refresh token probed after every step; distinct by operation list; non-trivial = "
@@ -176,7 +176,7 @@ func init() {
 			return false
 		},
 		rule: common + "contains an accepted revocation of a token that was active just before"})
-	regHist(&histProp{id: "C09", profile: mk("C09", func(p *Profile) { p.WIntrospect = 30; p.WRevoke = 12 }),
+	regHist(&histProp{id: "C09", profile: mk("C09", func(p *Profile) { p.WIntrospect = 18; p.WIntrospectEP = 22; p.WRevoke = 12 }),
 		module: "Cases.CasesHist", checkFn: "check_C09", quickN: 300, thoroN: 4000,
 		nontriv: func(h *HHistory, obs []HObs) bool {
 			act, inact := false, false
@@ -189,7 +189,7 @@ func init() {
 					}
 				}
 			}
-			return act && inact && countKind(h, "introspect") > 0
+			return act && inact && countKind(h, "introspect")+countKind(h, "introspect_ep") > 0
 		},
 		rule: common + "the probes contain active and inactive answers and the history has explicit introspections (hints, required scopes, tampered tokens)"})
 	_ = fmt.Sprint
